@@ -15,6 +15,19 @@
 (*               NilX   struct{Q *Inner `nilString`; U *uint64 `nilList`}      *)
 (*               PtrS   struct{U *uint64; I *Inner}                            *)
 (*               Rows   []Inner              ArrU  [2]uint64                   *)
+(*   ignored fields (rlp:"-" and unexported) at every position relative to     *)
+(*   optional / tail / nil-tagged fields - before, between, after, several in  *)
+(*   a row (lower case = unexported; the sample values give an ignored field   *)
+(*   the OPPOSITE zero-ness of its neighbours):                                *)
+(*               IgA    struct{A uint64; Cache uint64 `-`; B, C uint64 `optional`}       *)
+(*               IgB    struct{hidden uint64; A uint64; x uint64; y bool;      *)
+(*                             B *big.Int `optional`; z uint64; C uint64 `optional`; W uint64 `-`} *)
+(*               IgT    struct{X uint64 `-`; A uint64; h uint64; R []uint64 `tail`; t uint64} *)
+(*               IgN    struct{c uint64; P *uint64 `nil`; Skip uint64 `-`; Q *Inner `nil`; d bool} *)
+(*               OptIn  struct{X uint64; Cache uint64 `-`; Y uint64 `optional`} *)
+(*               IgE    struct{A uint64; OptIn (embedded); n uint64; P *OptIn `nil`; Z uint64 `optional`} *)
+(*               OnlyOpt struct{O uint64 `optional`}   (the only exported field is optional) *)
+(*               IgOnly struct{h uint64; O uint64 `optional`; T uint64 `-`}    *)
 (*   chain types (the wire structs of /repo/types, field by field)             *)
 (*               tx        types.txdata (Transaction)                          *)
 (*               log       types.rlpLog (Log, LogForStorage)                   *)
@@ -44,6 +57,14 @@ NilX   == TStruct(<<F(TPtr(Inner, "s")), F(TPtr(U64, "l"))>>)
 PtrS   == TStruct(<<F(TPtr(U64, "no")), F(TPtr(Inner, "no"))>>)
 Rows   == TSlice(Inner)
 ArrU   == TLArr(2, U64)
+IgA    == TStruct(<<F(U64), FIgn(U64), FOpt(U64), FOpt(U64)>>)
+IgB    == TStruct(<<FIgn(U64), F(U64), FIgn(U64), FIgn(TBool), FOpt(PBig), FIgn(U64), FOpt(U64), FIgn(U64)>>)
+IgT    == TStruct(<<FIgn(U64), F(U64), FIgn(U64), FTail(U64), FIgn(U64)>>)
+IgN    == TStruct(<<FIgn(U64), F(TPtr(U64, "s")), FIgn(U64), F(TPtr(Inner, "l")), FIgn(TBool)>>)
+OptIn  == TStruct(<<F(U64), FIgn(U64), FOpt(U64)>>)
+IgE    == TStruct(<<F(U64), F(OptIn), FIgn(U64), F(TPtr(OptIn, "l")), FOpt(U64)>>)
+OnlyOpt == TStruct(<<FOpt(U64)>>)
+IgOnly == TStruct(<<FIgn(U64), FOpt(U64), FIgn(U64)>>)
 
 Hash == TArr(32)
 Addr == TArr(20)
@@ -59,7 +80,8 @@ Header   == TStruct(<<F(U64), F(TStruct(<<>>)), F(U64), F(U64), F(BlockID), F(Ad
                       F(Hash), F(Hash), F(Hash), F(Hash), F(Hash), F(Hash), F(Hash)>>)
 
 ScalarNames == <<"u8", "u16", "u32", "u64", "big", "bool", "bytes", "string", "arr1", "arr2", "arr20", "raw", "iface">>
-StructNames == <<"Inner", "Nested", "OptS", "OptP", "TailS", "NilS", "NilX", "PtrS", "Rows", "ArrU">>
+StructNames == <<"Inner", "Nested", "OptS", "OptP", "TailS", "NilS", "NilX", "PtrS", "Rows", "ArrU",
+                 "IgA", "IgB", "IgT", "IgN", "OptIn", "IgE", "OnlyOpt", "IgOnly">>
 ChainNames  == <<"tx", "log", "receipt", "sreceipt", "blockinfo", "account", "slim", "header">>
 
 Schema(name) ==
@@ -71,6 +93,8 @@ Schema(name) ==
     [] name = "Inner" -> Inner [] name = "Nested" -> Nested [] name = "OptS" -> OptS [] name = "OptP" -> OptP
     [] name = "TailS" -> TailS [] name = "NilS" -> NilS [] name = "NilX" -> NilX [] name = "PtrS" -> PtrS
     [] name = "Rows" -> Rows [] name = "ArrU" -> ArrU
+    [] name = "IgA" -> IgA [] name = "IgB" -> IgB [] name = "IgT" -> IgT [] name = "IgN" -> IgN
+    [] name = "OptIn" -> OptIn [] name = "IgE" -> IgE [] name = "OnlyOpt" -> OnlyOpt [] name = "IgOnly" -> IgOnly
     [] name = "tx" -> TxData [] name = "log" -> LogT [] name = "receipt" -> Receipt
     [] name = "sreceipt" -> SReceipt [] name = "blockinfo" -> BlockInfo [] name = "account" -> Account [] name = "slim" -> Slim
     [] name = "header" -> Header
@@ -103,6 +127,8 @@ Pick(sc, j) ==
 PickFields(fs, i, j) ==
   IF i > Len(fs) THEN <<>>
   ELSE <<CASE fs[i].tag = "tail" -> IF j = 1 THEN <<>> ELSE <<Pick(fs[i].s, 2)>>
+           \* an ignored field is non-zero in the zero-like sample and zero in the typical one
+           [] fs[i].tag = "ign" -> Pick(fs[i].s, 3 - j)
            [] fs[i].tag = "opt" /\ fs[i].s.t = "ptr" /\ j = 1 -> NilV
            [] OTHER -> Pick(fs[i].s, j)>> \o PickFields(fs, i + 1, j)
 
